@@ -68,7 +68,7 @@ def oracle_fn(code, a):
 # ----------------------------------------------------------------------------------------------- inputs
 def opt_values(name, dim, rng, tier):
     """optional-argument dictionaries: every bound and special value, plus random interior values"""
-    n_rand = 3 if tier == "thorough" else 1
+    n_rand = 2 if tier == "thorough" else 1
 
     def lu(lo, hi):
         return float(np.exp(rng.uniform(np.log(lo), np.log(hi))))
@@ -93,7 +93,7 @@ def opt_values(name, dim, rng, tier):
         hs = ([0.11, 0.25, 0.5, 0.99] if tier == "thorough" else [0.11, 0.5]) + [float(rng.uniform(0.1, 1.0)) for _ in range(n_rand)]
         return [dict(hurst=h, len_low=l) for h in hs for l in (0.0, 1e-9, 0.3, 5.0)]
     if name == "TPLStable":
-        hs = ([0.11, 0.5, 0.99] if tier == "thorough" else [0.11]) + [float(rng.uniform(0.1, 1.0)) for _ in range(n_rand)]
+        hs = ([0.11, 0.99] if tier == "thorough" else [0.11]) + [float(rng.uniform(0.1, 1.0)) for _ in range(1)]
         al = [0.3, 1.0, 1.5, 2.0] if tier == "thorough" else [0.3, 1.5, 2.0]
         return [dict(hurst=h, len_low=l, alpha=a) for h in hs for l in ((0.0, 1e-9, 0.3, 5.0) if tier == "thorough" else (0.0, 0.3)) for a in al]
     return [dict()]
@@ -107,11 +107,13 @@ LAGS_SHORT = [0.0, 1e-9, 1e-3, 0.5, 1.0, 3.0, 1e3]
 
 
 def plan(name, dim, tier, lags):
-    """(lags, number of parameter sets) for a class in a dimension: the full lag list in every dimension in the thorough
-    tier; in the quick tier in one dimension per class (the functions do not depend on dim except through the bounds
-    and HyperSpherical, which gets all three)"""
-    if tier == "thorough" or name == "HyperSpherical" or dim == primary_dim(name):
+    """(lags, number of parameter sets) for a class in a dimension.  The functions do not depend on dim except through the
+    bounds of the optional arguments and HyperSpherical: one dimension per class (all three for HyperSpherical) gets the
+    full lag list of the tier, the others the quick list (thorough) or a short list (quick)"""
+    if name == "HyperSpherical" or dim == primary_dim(name):
         return lags, (3 if tier == "thorough" else 2)
+    if tier == "thorough":
+        return LAGS_Q, 2
     return LAGS_SHORT, 1
 
 
@@ -705,7 +707,7 @@ def probe_scales(ctx, rng):
     mp.mp.dps = 30
     for name, code, _ in CLASSES:
         for dim in (1, 2, 3):
-            if ctx.tier != "thorough" and name != "HyperSpherical" and dim != primary_dim(name):
+            if name != "HyperSpherical" and dim != primary_dim(name):
                 continue   # the scales do not depend on dim (only the bounds of the optional arguments do)
             opts = opt_values(name, dim, rng, ctx.tier)
             if ctx.tier != "thorough":
@@ -762,7 +764,9 @@ def probe_scales(ctx, rng):
                             m2 = make(name, dim, opt, var, ls, nug, resc, integral_scale=target)
                             got = float(m2.integral_scale)
                         ctx.count(("setter", name, dim, oi), hist=dict(stage="probe:integral-scale-setter", cls=name, dim=dim))
-                        if not abs(got - target) <= (1e-9 if code <= 5 else 1e-4) * target:
+                        # TPL with len_low > 0: the scale is not proportional to len_scale; the setter is then explicitly
+                        # approximate (it accepts what passes its own np.isclose(rtol=1e-3) and raises otherwise)
+                        if not abs(got - target) <= (1e-9 if code <= 5 else 1e-4 if linear else 1.1e-3) * target:
                             viol(ctx, "integral scale setter", "integral_scale=%r prescribed, model reports %r" % (target, got),
                                  desc(name, dim, opt, bp, target=target, got=got), "JBessel:integral-scale-quad" if name == "JBessel" else "%s:integral-scale-setter" % name)
                         if name in TPL and not abs(m2.var - var) <= 1e-12 * var:
